@@ -3,12 +3,16 @@ import DarkluaModel.Shared.VisitorSound.Heap.HParam
 # Loops: related step functions (at every extension of the injection) give related loops
 -/
 namespace DarkluaModel.Sem.Heap
-variable {N : NumOps} {Q : QRel} {cx : Cx} {β : CellRel}
+variable {N : NumOps} {Q : QRel} {cx : Cx} {β : CellRel N}
 
-/-- control results agree in shape and returned values (environments ignored) -/
+/-- control results agree for the enclosing LOOP: `next` and `continue` both mean "iterate again" (so the
+original's `continue` may be matched by the rewritten body's normal completion), `break` matches
+`break`, returned values are equal; environments are ignored -/
 def CtlShape : Ctl N → Ctl N → Prop
   | .next _, .next _ => True
   | .cont _, .cont _ => True
+  | .next _, .cont _ => True
+  | .cont _, .next _ => True
   | .brk, .brk => True
   | .ret vs, .ret vs' => vs = vs'
   | _, _ => False
@@ -39,13 +43,12 @@ theorem whileLoop_rel {step step' : State N → Res N (Option (Ctl N))}
       cases a <;> cases a' <;> simp only [OCtlShape] at ha
       · exact RRel.mono hle (RRel.okEq hs)
       · rename_i c c'
-        cases c <;> cases c' <;> simp only [CtlShape] at ha
-        · exact ihn hs
-        · exact RRel.mono hle (RRel.okEq hs)
-        · exact ihn hs
-        · subst ha; exact RRel.mono hle (RRel.okEq hs)
+        cases c <;> cases c' <;> simp only [CtlShape] at ha <;>
+          first | exact ihn hs | exact RRel.mono hle (RRel.okEq hs) | (subst ha; exact RRel.mono hle (RRel.okEq hs))
     · obtain ⟨rfl, β1, hle, hs⟩ := hr
       exact RRel.mono hle (RRel.err hs)
+    · exact RRel.timeout_left hr _
+    · exact RRel.timeout_left hr _
     · exact RRel.timeout
 
 theorem forLoop_rel {body body' : N.F → State N → Res N (Ctl N)}
@@ -72,13 +75,12 @@ theorem forLoop_rel {body body' : N.F → State N → Res N (Ctl N)}
         rename_i c _ c' _
         have ihn := fun (j : N.F) {s s' : State N} (hs : SRel Q cx β1 s s') =>
           RRel.mono hle (ih (fun β2 h2 => hbody β2 (CellRel.le_trans hle h2)) j hs)
-        cases c <;> cases c' <;> simp only [CtlShape] at ha
-        · exact ihn _ hs
-        · exact RRel.mono hle (RRel.okEq hs)
-        · exact ihn _ hs
-        · subst ha; exact RRel.mono hle (RRel.okEq hs)
+        cases c <;> cases c' <;> simp only [CtlShape] at ha <;>
+          first | exact ihn _ hs | exact RRel.mono hle (RRel.okEq hs) | (subst ha; exact RRel.mono hle (RRel.okEq hs))
       · obtain ⟨rfl, β1, hle, hs⟩ := hr
         exact RRel.mono hle (RRel.err hs)
+      · exact RRel.timeout_left hr _
+      · exact RRel.timeout_left hr _
       · exact RRel.timeout
 
 theorem gforLoop_rel {iter iter' : Val N → State N → Res N (List (Val N))}
@@ -115,16 +117,18 @@ theorem gforLoop_rel {iter iter' : Val N → State N → Res N (List (Val N))}
           have ihn := fun (j : Val N) {s s' : State N} (hs : SRel Q cx β2 s s') =>
             RRel.mono hle' (ih (fun β3 h3 => hiter β3 (CellRel.le_trans hle' h3))
               (fun β3 h3 => hbody β3 (CellRel.le_trans hle' h3)) j hs)
-          cases c <;> cases c' <;> simp only [CtlShape] at ha2
-          · exact ihn _ hs2
-          · exact RRel.mono hle' (RRel.okEq hs2)
-          · exact ihn _ hs2
-          · subst ha2; exact RRel.mono hle' (RRel.okEq hs2)
+          cases c <;> cases c' <;> simp only [CtlShape] at ha2 <;>
+            first | exact ihn _ hs2 | exact RRel.mono hle' (RRel.okEq hs2) |
+              (subst ha2; exact RRel.mono hle' (RRel.okEq hs2))
         · obtain ⟨rfl, β2, hle2, hs2⟩ := hb
           exact RRel.mono (CellRel.le_trans hle hle2) (RRel.err hs2)
+        · exact RRel.mono hle (RRel.timeout_left hb _)
+        · exact RRel.mono hle (RRel.timeout_left hb _)
         · exact RRel.timeout
     · obtain ⟨rfl, β1, hle, hs⟩ := hr
       exact RRel.mono hle (RRel.err hs)
+    · exact RRel.timeout_left hr _
+    · exact RRel.timeout_left hr _
     · exact RRel.timeout
 
 end DarkluaModel.Sem.Heap
